@@ -32,6 +32,11 @@ class Chooser:
     def sample(self, seq, k):
         return self.shuffle(seq)[:k]
 
+    def side(self, tag):
+        """A chooser for an optional feature added later: under a seeded PRNG it is a stream of its own, so that
+        the main stream - and with it every case generated before the feature existed - stays what it was."""
+        return self
+
     def weighted(self, pairs):
         """pairs: [(weight:int, value)].  First entry is the shrink target."""
         total = sum(w for w, _ in pairs)
@@ -64,7 +69,11 @@ class HChooser(Chooser):
 
 class RChooser(Chooser):
     def __init__(self, seed):
+        self.seed = seed
         self.r = random.Random(seed)
+
+    def side(self, tag):
+        return RChooser(f"{self.seed}/{tag}")
 
     def int(self, lo, hi):
         if hi <= lo:
